@@ -130,6 +130,8 @@ type Gen struct {
 	retOrdinal  map[*ssa.Return]int
 	curRet      *ssa.Return
 	callBlocks  map[string][]*ssa.BasicBlock // blocks in which a call to each callee label was processed
+	allocCounter int                         // static allocation clock (see observe/newObject)
+	writtenRefs  map[*ssa.BasicBlock]map[string][]refInfo // pass 1: objects written per block and component
 	panicSites map[string][]token.Pos // pass 1: positions of may-panic instructions per kind (kept across reset)
 	defers      []*ssa.Defer
 	usedAxioms  map[string]bool
@@ -189,6 +191,7 @@ func (g *Gen) reset() {
 	g.opaqueDefs = map[string]string{}
 	g.revealed = map[string]bool{}
 	g.callBlocks = nil
+	g.allocCounter = 0
 	if g.fc != nil {
 		for _, r := range g.fc.Reveal {
 			g.revealed[r] = true
@@ -566,7 +569,74 @@ func (g *Gen) resolve(b *Base, key string) string {
 	return v
 }
 
+// refInfo describes which object a heap write went to (pass 1), so that loop heads can keep
+// every other object of the same component unchanged (per-object loop frame).
+type refInfo struct {
+	val     ssa.Value // the SSA value denoting the object (or the slice whose array it is)
+	arr     bool      // the object is s_arr(val)
+	unknown bool
+}
+
+// sexprArgs splits "(op a b c)" into [op a b c] at top level.
+func sexprArgs(s string) []string {
+	if len(s) < 2 || s[0] != '(' || s[len(s)-1] != ')' {
+		return nil
+	}
+	s = s[1 : len(s)-1]
+	var out []string
+	depth, start := 0, 0
+	for i := 0; i <= len(s); i++ {
+		if i == len(s) || (s[i] == ' ' && depth == 0) {
+			if i > start {
+				out = append(out, s[start:i])
+			}
+			start = i + 1
+			continue
+		}
+		if s[i] == '(' {
+			depth++
+		} else if s[i] == ')' {
+			depth--
+		}
+	}
+	return out
+}
+
+func (g *Gen) noteWrite(key, old, v string) {
+	if g.pass != 1 || g.cur == nil {
+		return
+	}
+	info := refInfo{unknown: true}
+	if a := sexprArgs(v); len(a) == 4 && a[0] == "store" && a[1] == old {
+		ref := a[2]
+		for val, term := range g.vals {
+			if term == ref {
+				info = refInfo{val: val}
+				break
+			}
+			if "(s_arr "+term+")" == ref {
+				info = refInfo{val: val, arr: true}
+				break
+			}
+		}
+	}
+	if g.writtenRefs == nil {
+		g.writtenRefs = map[*ssa.BasicBlock]map[string][]refInfo{}
+	}
+	m := g.writtenRefs[g.cur]
+	if m == nil {
+		m = map[string][]refInfo{}
+		g.writtenRefs[g.cur] = m
+	}
+	m[key] = append(m[key], info)
+}
+
 func (g *Gen) set(key, v string) {
+	if !isLocalKey(key) {
+		if _, ok := g.keySort[key]; ok {
+			g.noteWrite(key, g.get(g.st, key), v)
+		}
+	}
 	if strings.HasPrefix(v, "(") && !isLocalKey(key) {
 		// name every new heap version: keeps queries small and gives the solver atoms to match on
 		if srt, ok := g.keySort[key]; ok {
@@ -1001,6 +1071,7 @@ func (g *Gen) bindInput(p ssa.Value, name string) {
 	n := g.declare(sym(name), g.sortOf(p.Type()))
 	g.vals[p] = n
 	g.global(g.typeFacts(n, p.Type()))
+	g.observe(n, p.Type())
 }
 
 // typeFacts returns facts every value of type t satisfies.
@@ -1094,6 +1165,7 @@ func (g *Gen) loopHead(h *ssa.BasicBlock, phis []*ssa.Phi) {
 	for _, key := range g.loopFrameKeys(h) {
 		g.assume(g.frameFact(key, g.get(g.st, key), g.get(g.entry, key), g.fnModLocs(), true))
 	}
+	g.perObjectLoopFrame(h, li)
 	// assume invariants at head (phis are fresh consts, state is the loop base)
 	env := g.pointEnv(g.st, h, nil)
 	for k, c := range invs {
@@ -1116,8 +1188,41 @@ func (g *Gen) loopHead(h *ssa.BasicBlock, phis []*ssa.Phi) {
 	for _, ph := range phis {
 		if ph.Comment == "rangeindex" {
 			g.assume(app(">=", g.vals[ph], "(- 1)"))
+			if bound := rangeIndexBound(ph); bound != nil {
+				// idx < len: the SSA range pattern (idx' = idx+1; idx' < len) keeps it; checked on
+				// every back edge like any invariant (init: -1 < len holds as len >= 0)
+				g.assume(app("<", g.vals[ph], g.val(bound)))
+			}
 		}
 	}
+}
+
+// rangeIndexBound finds the loop bound of a `for range` index phi: the value len in the header's
+// `idx+1 < len` test, when len is computed outside the loop.
+func rangeIndexBound(ph *ssa.Phi) ssa.Value {
+	b := ph.Block()
+	var next ssa.Value
+	for _, in := range b.Instrs {
+		if bo, ok := in.(*ssa.BinOp); ok && bo.Op == token.ADD && bo.X == ph {
+			if c, isC := bo.Y.(*ssa.Const); isC && c.Value != nil && c.Value.ExactString() == "1" {
+				next = bo
+			}
+		}
+	}
+	if next == nil {
+		return nil
+	}
+	for _, in := range b.Instrs {
+		if bo, ok := in.(*ssa.BinOp); ok && bo.Op == token.LSS && bo.X == next {
+			if li, isInstr := bo.Y.(ssa.Instruction); isInstr {
+				if li.Block() == b || !li.Block().Dominates(b) {
+					return nil
+				}
+			}
+			return bo.Y
+		}
+	}
+	return nil
 }
 
 func (g *Gen) backEdge(u, h *ssa.BasicBlock) {
@@ -1162,7 +1267,11 @@ func (g *Gen) backEdge(u, h *ssa.BasicBlock) {
 	}
 	for _, in := range h.Instrs {
 		if ph, ok := in.(*ssa.Phi); ok && ph.Comment == "rangeindex" {
-			g.oblige("inv-step", fmtf("%s/inv-step#loop%d.rangeindex%s", g.fnLabel(), li.ord, esuf), implies(edge, app(">=", sub[ph], "(- 1)")), nil, "rangeindex >= -1", ph.Pos())
+			goal := app(">=", sub[ph], "(- 1)")
+			if bound := rangeIndexBound(ph); bound != nil {
+				goal = and(goal, app("<", sub[ph], g.val(bound)))
+			}
+			g.oblige("inv-step", fmtf("%s/inv-step#loop%d.rangeindex%s", g.fnLabel(), li.ord, esuf), implies(edge, goal), nil, "-1 <= rangeindex < len", ph.Pos())
 		}
 	}
 	for _, key := range g.loopFrameKeys(h) {
@@ -1178,6 +1287,94 @@ func (g *Gen) backEdge(u, h *ssa.BasicBlock) {
 			continue
 		}
 		g.oblige("decreases", fmtf("%s/decreases#loop%d.%d%s", g.fnLabel(), li.ord, k, esuf), implies(edge, and(app(">=", t0, "0"), app("<", t1, t0))), c.Props, c.Text, u.Instrs[len(u.Instrs)-1].Pos())
+	}
+}
+
+// perObjectLoopFrame: for each array-shaped heap component written in the loop only through
+// stores to identifiable objects (pass 1), every OTHER object that existed at loop entry keeps
+// its contents. Objects allocated inside the loop are excluded by the allocation clock.
+func (g *Gen) perObjectLoopFrame(h *ssa.BasicBlock, li *loopInfo) {
+	if g.pass != 2 || g.modAll[h] || g.st.base == nil || g.st.base.kind != bLoop {
+		return
+	}
+	var keys []string
+	for k := range g.modsets[h] {
+		if !isLocalKey(k) && strings.HasPrefix(g.keySort[k], "(Array Int") {
+			keys = append(keys, k)
+		}
+	}
+	sort.Strings(keys)
+	for _, key := range keys {
+		var invRefs []string
+		ok := true
+		for b := range li.blocks {
+			for _, info := range g.writtenRefs[b][key] {
+				if info.unknown || info.val == nil {
+					ok = false
+					break
+				}
+				inLoop := false
+				if in, isInstr := info.val.(ssa.Instruction); isInstr && in.Block() != nil && li.blocks[in.Block()] {
+					inLoop = true
+				}
+				if inLoop {
+					// only objects created inside the loop may be written through loop-local values
+					switch info.val.(type) {
+					case *ssa.Alloc, *ssa.MakeSlice, *ssa.MakeMap, *ssa.MakeChan, *ssa.MakeClosure:
+						if info.arr != isSlice(info.val.Type()) {
+							ok = false
+						}
+					default:
+						ok = false
+					}
+					continue
+				}
+				term := g.val(info.val)
+				if info.arr {
+					term = app("s_arr", term)
+				}
+				invRefs = append(invRefs, term)
+			}
+			if !ok {
+				break
+			}
+		}
+		if !ok {
+			continue
+		}
+		// value at loop entry (merge of the entry edges)
+		base := g.st.base
+		var vs []string
+		same := true
+		for _, p := range base.preds {
+			pv := g.get(p.st, key)
+			vs = append(vs, pv)
+			if pv != vs[0] {
+				same = false
+			}
+		}
+		if len(vs) == 0 {
+			continue
+		}
+		entry := vs[0]
+		if !same {
+			entry = g.fresh(key+".entry", g.keySort[key])
+			for i, p := range base.preds {
+				g.assume(implies(p.edge, app("=", entry, vs[i])))
+			}
+		}
+		g.declareFun("atime", []string{"Int"}, "Int")
+		var ex []string
+		seen := map[string]bool{}
+		for _, r := range invRefs {
+			if !seen[r] {
+				seen[r] = true
+				ex = append(ex, app("=", "lf_r", r))
+			}
+		}
+		now := g.get(g.st, key)
+		g.assume(fmtf("(forall ((lf_r Int)) (! (=> (and (<= (atime lf_r) %d) (not %s)) (= (select %s lf_r) (select %s lf_r))) :pattern ((select %s lf_r))))",
+			g.allocCounter, or(ex...), now, entry, now))
 	}
 }
 
